@@ -40,6 +40,17 @@ def run(ctx):
                                   # single data sets: a user-given reference epoch (on any time scale) in 2 of 3 cases
                                   t_ref_kind=str(rng.choice(["default", "inside", "before", "far"], p=[.34, .26, .2, .2])))
         ps = pb.ps
+        pb.code_assign = None
+        if pb.dspec["form"] == "dict" and rng.random() < 0.7:
+            # the same (chronological) surveys under keys inserted in another than sorted order: the sampler and the MCMC model
+            # must agree on which survey dv0_k belongs to (the k-th key in sorted order; the smallest key is the reference)
+            keys_ = list(pb.dspec["keys"])
+            new_ = [keys_[j_] for j_ in rng.permutation(len(keys_))]
+            pb.dspec["keys"] = new_
+            srt_ = sorted(new_)
+            pb.code_assign = tuple(srt_.index(k_) for k_ in new_)
+            pb.data = gen.build_data(pb.dspec)
+            pb.lin = gen.linear_problem(pb.dspec, ps, pb.code_assign)
         if n_off == 0 and rng.random() < 0.4:
             # a single data set whose uncertainties are quoted in another unit than its velocities (km/s with m/s errors)
             sv = pb.dspec["surveys"][0]
@@ -48,7 +59,7 @@ def run(ctx):
             sv["err"] = [gen.conv(v, cur, new_u) for v in sv["err"]]
             sv["err_unit"] = new_u
             pb.data = gen.build_data(pb.dspec)
-            pb.lin = gen.linear_problem(pb.dspec, ps)
+            pb.lin = gen.linear_problem(pb.dspec, ps, pb.code_assign)
         if canonical:
             # re-express every prior in the canonical system: day / rad / data unit
             du = pb.du
@@ -65,7 +76,7 @@ def run(ctx):
             ps["s"]["value"] = gen.conv(ps["s"]["value"], ps["s"]["unit"], du)
             ps["s"]["unit"] = du
             pb.prior = gen.build_prior(ps)
-            pb.lin = gen.linear_problem(pb.dspec, ps)
+            pb.lin = gen.linear_problem(pb.dspec, ps, pb.code_assign)
         sk = ps["s"]["kind"]
         many = bool(rng.random() < 0.5)
         unit_cls = "canonical" if canonical else "custom(P:%s,K:%s)" % (ps["P_unit"], "data" if ps["K"]["unit"] == pb.du else "other")
